@@ -267,3 +267,15 @@ def _mk_light(k, tier):
 
 _mk_light(2, "quick")
 _mk_light(3, "thorough")
+
+
+MUTANTS = [
+    dict(name="occupancy-cache-never-dropped", target="commonroad.prediction.prediction:TrajectoryPrediction._invalidate_occupancy_set",
+         old="            del self.occupancy_set", new="            pass", only="prediction.k2"),
+    dict(name="history-keeps-one-too-many", target="commonroad.scenario.obstacle:DynamicObstacle.update_initial_state",
+         old="            self.history = self.history[-max_history_length:]", new="            self.history = self.history[-max_history_length - 1:]", only="history"),
+    dict(name="index-not-rebuilt-on-add", target="commonroad.scenario.lanelet:LaneletNetwork.add_lanelet", old="            if rtree:\n                self._create_strtree()",
+         new="            if rtree and False:\n                self._create_strtree()", only="network.k2"),
+    dict(name="polygon-not-rebuilt-on-move", target="commonroad.scenario.lanelet:Lanelet.translate_rotate",
+         old="        self._polygon = Polygon(np.concatenate((self.right_vertices, np.flip(self.left_vertices, 0))))", new="        pass", only="lanelet.polygon"),
+]
